@@ -308,3 +308,7 @@ pub fn inst_opt_json(d: &Option<sylvia::cw_utils::MsgInstantiateContractResponse
         None => Value::Null,
     }
 }
+
+pub fn to_bin<T: Serialize>(v: &T) -> Binary {
+    sylvia::cw_std::to_json_binary(v).expect("value serialises")
+}
